@@ -529,9 +529,9 @@ def assemble_fn(repo, fs, record, canary=None):
         inserts.append((toks[bo].end, '\n    ' + fs.bodyprefix + '\n', 'HINT'))
     CAN = ' proof { assert(false); } /*CANARY*/ '
     n_canaries = 0
-    if canary == 'start':
+    if canary in ('start', 'sl'):
         inserts.append((toks[bo].end, CAN, 'CANARY')); n_canaries = 1
-    elif canary == 'end':
+    if canary == 'end':
         # before the last top-level statement of the body
         depth = 0; top = []
         prev = '{'
@@ -544,7 +544,7 @@ def assemble_fn(repo, fs, record, canary=None):
             prev = t.text if (t.kind == 'punct' and depth == 0) else 'x'
         if top:
             inserts.append((toks[top[-1]].start, CAN, 'CANARY')); n_canaries = 1
-    elif canary == 'loops':
+    if canary in ('loops', 'sl'):
         for li in loop_idx:
             j = li + 1
             while j < bc:
@@ -576,6 +576,7 @@ class Unit:
         self.segs = []      # (start_line, end_line, tag, origin)  1-based inclusive lines of generated file
         self.functions = []
         self.items = []
+        self.lemma_canaries = []
 
 def _parse_quoted(rest):
     return shlex.split(rest)
@@ -613,6 +614,18 @@ def build_unit(verif, repo, template_path, canary=False):
                     if not state['mods'] or state['mods'][-1] != mm.group(1):
                         raise ExtractError('%s:%d unbalanced mod marker' % (rel, i + 1))
                     state['mods'].pop()
+                mm = re.search(r'\bproof\s+fn\s+(\w+)', s)
+                if mm: state['lemma'] = mm.group(1)
+                if ln.rstrip().endswith('//@C'):
+                    body = ln.rstrip()[:-len('//@C')].rstrip()
+                    if canary == 'end' and body.endswith('}'):
+                        emit(body[:-1], 'TPL', '%s:%d' % (rel, i + 1))
+                        emit(' assert(false); /*CANARY*/ ', 'CANARY|lemma:' + '::'.join(state['mods'] + [state.get('lemma', '?')]), '%s:%d' % (rel, i + 1))
+                        emit('}\n', 'TPL', '%s:%d' % (rel, i + 1))
+                        u.lemma_canaries.append('lemma:' + '::'.join(state['mods'] + [state.get('lemma', '?')]))
+                    else:
+                        emit(body + '\n', 'TPL', '%s:%d' % (rel, i + 1))
+                    i += 1; continue
                 emit(ln + '\n', 'TPL', '%s:%d' % (rel, i + 1)); i += 1; continue
             d = s[3:].strip()
             if not d or d.startswith('#'):
@@ -717,6 +730,9 @@ def build_unit(verif, repo, template_path, canary=False):
                         cur.append(lines[i])
                     i += 1
                 pieces = assemble_fn(repo, fs, u.functions, canary)
+                w = fs.within.split(' for ')[-1] if fs.within else None
+                if w: w = re.sub(r'<.*', '', w).strip()
+                u.functions[-1]['vname'] = '::'.join(state['mods'] + ([w] if w else []) + [fs.name])
                 u.functions[-1]['fn'] = '::'.join(state['mods'] + [u.functions[-1]['fn']])
                 u.functions[-1]['template'] = '%s:%d' % (rel, fs.tline)
                 u.functions[-1]['n_spec_lines'] = len([l for l in fs.spec if l.strip()])
